@@ -1212,7 +1212,12 @@ pub fn generate(seed: u64, opts: &GenOpts) -> PlanA {
         configs,
         clients,
         steps,
-        wall_base: 1_700_000_000 + r.below(200_000_000) as i64,
+        wall_base: {
+            /* now and then the history starts shortly before 2038-01-19 03:14:08 (2^31 seconds) */
+            let mut k = Rng::new(seed, "plan-a-epoch");
+            let w = 1_700_000_000 + r.below(200_000_000) as i64;
+            if k.chance(0.04) { 2_147_483_648 - k.range(1, 200_000) as i64 } else { w }
+        },
         yield_p: if same_instant_run { *r.pick(&[0.0, 0.2, 0.5]) } else { 0.0 },
         spurious_p: if r.chance(0.3) { 0.05 } else { 0.0 },
         eintr_p: if r.chance(0.3) { 0.05 } else { 0.0 },
